@@ -64,8 +64,11 @@ STRUCTURAL = {"distance_bin", "distance_wei", "strengths_dir", "strengths_und", 
 
 def arg_dtype(name, dtype):
     base = name.split("@")[0].split("[")[0]
+    # (seed round 7) the weighted clustering / transitivity routines take the cube root of their argument
+    # first (a float64 array on the unchanged tree), so an unsigned 8-bit matrix is ordinary input for them
     return rc.admissible(dtype, binary=base in BINARY, structural=base in STRUCTURAL,
-                         floats_first=base == "betweenness_bin")
+                         floats_first=base in ("betweenness_bin", "clustering_coef_wu", "clustering_coef_wd",
+                                               "transitivity_wu", "transitivity_wd"))
 
 
 def _thunks(fw, fb, mkA, mkB):
@@ -349,6 +352,7 @@ REGIMES = {                 # name -> (scale of the encoding, draw of one weight
     "pow2": (1, lambda rng: float(2 ** rng.randint(1, 20))),             # exact, products wrap in intN
     "npow2": (POW20, lambda rng: 2.0 ** -rng.randint(8, 20)),            # exact, products underflow to 0
 }
+CUBE_PAIRS = ("clustering_coef_wu", "clustering_coef_wd", "transitivity_wu", "transitivity_wd")
 PATH_PAIRS = ("distance_wei", "betweenness_wei", "edge_betweenness_wei", "efficiency_wei", "reachdist")
 
 
@@ -446,6 +450,9 @@ def scale_jobs(ctx, pairs):
             for dt in rc.DT_BIN:
                 add_big(jobs, pairs, ("01",), U, src + "-und-dtypes", 1, (dt, rng.choice(rc.LAYOUTS)),
                         only=PATH_PAIRS, seen=seen)
+        # (seed round 7) cube-root routines on 8-bit 0/1 matrices: dense supports have thousands of closed
+        # 3-walks - sums that a half-precision intermediate cannot hold (float16: 2048 exactly, 65504 at all)
+        add_big(jobs, pairs, ("01", "01und"), U, src + "-und-u8", 1, ("uint8", rng.choice(rc.LAYOUTS)), only=CUBE_PAIRS)
         # --- (2) weighted: directed = undirected on symmetric, weights ignored by those that say so
         regs = []               # one regime per input (thorough: two), cycling through all of them
         for _ in range(1 if ctx.quick else 2):
